@@ -398,6 +398,10 @@ impl Decode for Interned<str> {
                 .expect("referenced interned value not found in interner"),
         };
 
+        session
+            .get_mut_or_default::<DecodedInterned>()
+            .push(Box::new(value.clone()));
+
         Ok(value)
     }
 }
@@ -425,6 +429,10 @@ impl<T: Decode + StableHash + Identifiable + Send + Sync + 'static> Decode
                 .expect("referenced interned value not found in interner"),
         };
 
+        session
+            .get_mut_or_default::<DecodedInterned>()
+            .push(Box::new(value.clone()));
+
         Ok(value)
     }
 }
@@ -450,8 +458,27 @@ impl Decode for Interned<Path> {
                 .expect("referenced interned value not found in interner"),
         };
 
+        session
+            .get_mut_or_default::<DecodedInterned>()
+            .push(Box::new(value.clone()));
+
         Ok(value)
     }
+}
+
+/// A session key keeping every handle produced by the running top-level
+/// decode call alive until that call returns.
+///
+/// The interner only holds weak references. A handle decoded inside the
+/// payload of another interned value is owned by that payload; when
+/// [`Interner::intern`] finds an equal value already alive it drops the
+/// freshly decoded payload, and with it possibly the only strong reference
+/// to the inner handle. A later back-reference to the inner value would then
+/// miss. Holding a clone in the session makes every back-reference resolve.
+struct DecodedInterned;
+
+impl SessionKey for DecodedInterned {
+    type Value = Vec<Box<dyn Any + Send + Sync>>;
 }
 
 /// A session key for tracking seen interned IDs during encoding.
@@ -515,6 +542,10 @@ impl<T: Identifiable + StableHash + Decode + Send + Sync + 'static> Decode
                 .get_from_hash::<T>(compact128)
                 .expect("referenced interned value not found in interner"),
         };
+
+        session
+            .get_mut_or_default::<DecodedInterned>()
+            .push(Box::new(value.clone()));
 
         Ok(value)
     }
